@@ -4,11 +4,11 @@ package chk
 // decode a symbolic payload, serialise the decoded value, compare bit by bit; Size() equals the serialised length.
 
 import (
-	"os"
 	"fmt"
 	"go/ast"
 	"go/constant"
 	"go/types"
+	"os"
 	"sort"
 	"strings"
 )
